@@ -8,4 +8,14 @@ PROPS = {
         "rule": "roundtrip of sampled ids (3/4 in the 10^7 id space, 1/4 any u32) + all border ids; parse of structured strings (valid renderings with other 3-byte prefixes, overflow region, signs, leading zeros) and random strings over an alphabet with 1-4 byte chars at every offset; distinct = distinct op lists; every case non-trivial",
         "assumptions": ["Rust u32::from_str grammar: optional '+', decimal digits, overflow is an error", "Display {:07} pads with zeros to at least 7 digits"],
     },
+    "C11": {
+        "rule": "TODO",
+        "assumptions": [],
+        "partial": "",
+    },
+    "C14": {
+        "rule": "TODO",
+        "assumptions": [],
+        "partial": "",
+    },
 }
